@@ -206,4 +206,23 @@ PROPS = {
                              "matcher_hits": 5000, "history_steps": 10000}},
         "assumptions": COMMON_ASSUMPTIONS,
     },
+    "C04": {
+        "rule": ("Complete finite matrices, each cell checked at top level, inside any(...) and combined with a boolean: "
+                 "op-matrix 18 left sides (4 scalars, containers, indexed, mapped, call results) x 15 operator spellings "
+                 "x 12 right-hand-side kinds (int, quoted/raw/hex bytes, IPv4, IPv6, int/bytes/ip/empty brace lists, "
+                 "$list, nothing); index-matrix 10 bases x 9 x 9 index kinds ([n], [\"k\"], [*], negative, > u32, raw "
+                 "key, non-UTF-8 key, empty); operand-matrix 12 x 12 operands x 6 logical operator spellings; "
+                 "quantifier-matrix 29 argument kinds x any/all; call-matrix 70 signature x argument-shape cases "
+                 "(arity, literal/field kind, type, [*] placement, result indexing, namespaces); value-matrix 22 value "
+                 "expressions. random: generated well-typed filters (controls) and the same with exactly one typing "
+                 "rule broken (9 mutation kinds, unambiguous spellings only), decided by the reference type checker. "
+                 "Every accepted program is compiled and executed on 3 contexts (no panic; well-typed ones must also "
+                 "give the reference result); values: value expressions - acceptance, static type, and each result is a "
+                 "value of the static type or an absence tagged with it. distinct_nontrivial = distinct texts."),
+        "quick": [st("rel")],
+        "thorough": [st("rel"), st("dbg")],
+        "floors": {"quick": {"evaluations": 50000, "distinct_nontrivial": 15000, "accepted": 5000, "rejected": 10000,
+                             "random_ill_typed": 3000, "random_well_typed": 4000}},
+        "assumptions": COMMON_ASSUMPTIONS + ["the typing rules of harness/src/refsem.rs and the expectation tables of props/c04.rs are the documented rules (reviewed cell by cell against the statement; DESIGN.md 3.3 lists the readings adopted)"],
+    },
 }
